@@ -43,7 +43,7 @@ func (g *gen) subset(n, min int) []int {
 var errStatuses = []int{0, 400, 403, 404, 500, 503}
 var okStatuses = []int{200, 201, 204, 404, 418}
 
-func (g *gen) matcher(kind int, depth int, errOdds int) *matcher {
+func (g *gen) matcher(kind int, depth int, errOdds, legacyOdds int) *matcher {
 	switch {
 	case kind <= 3:
 		min := 0
@@ -53,26 +53,30 @@ func (g *gen) matcher(kind int, depth int, errOdds int) *matcher {
 		return &matcher{kind: 'a', field: kind, vals: g.subset(fieldSize[kind], min)}
 	case kind <= 6:
 		return &matcher{kind: 'e', ekind: kind - 4, status: errStatuses[g.rng.Intn(len(errStatuses))]}
+	case kind >= 8:
+		return &matcher{kind: 'l', ekind: kind - 8}
 	}
 	m := &matcher{kind: 'n'}
 	for n := g.rng.Intn(3); n > 0; n-- {
-		m.sets = append(m.sets, g.set(depth+1, errOdds))
+		m.sets = append(m.sets, g.set(depth+1, errOdds, legacyOdds))
 	}
 	return m
 }
 
 // set draws a matcher set: distinct kinds in random order (the order is part of the case).
-func (g *gen) set(depth int, errOdds int) []*matcher {
+func (g *gen) set(depth int, errOdds, legacyOdds int) []*matcher {
 	var kinds []int
-	for k := 0; k <= 7; k++ {
+	for k := 0; k <= 9; k++ {
 		var take bool
 		switch {
 		case k <= 3:
 			take = g.rng.Chance(3, 10)
 		case k <= 6:
 			take = g.rng.Chance(errOdds, 100)
-		default:
+		case k == 7:
 			take = depth < 2 && g.rng.Chance(15, 100)
+		default:
+			take = g.rng.Chance(legacyOdds, 100)
 		}
 		if take {
 			kinds = append(kinds, k)
@@ -84,24 +88,24 @@ func (g *gen) set(depth int, errOdds int) []*matcher {
 	}
 	set := []*matcher{}
 	for _, k := range kinds {
-		set = append(set, g.matcher(k, depth, errOdds))
+		set = append(set, g.matcher(k, depth, errOdds, legacyOdds))
 	}
 	return set
 }
 
-func (g *gen) sets(errOdds, noSetOdds int) [][]*matcher {
+func (g *gen) sets(errOdds, legacyOdds, noSetOdds int) [][]*matcher {
 	if g.rng.Chance(noSetOdds, 100) {
 		return nil
 	}
 	var out [][]*matcher
 	for n := 1 + g.rng.Intn(2); n > 0; n-- {
-		out = append(out, g.set(0, errOdds))
+		out = append(out, g.set(0, errOdds, legacyOdds))
 	}
 	return out
 }
 
 type shape struct {
-	errOdds, failOdds, subOdds, subErrOdds, termOdds, groupOdds, rewriteOdds, noSetOdds int
+	errOdds, failOdds, subOdds, subErrOdds, termOdds, groupOdds, rewriteOdds, noSetOdds, legacyOdds int
 }
 
 func (g *gen) handlers(depth int, sh shape) []*handler {
@@ -147,7 +151,7 @@ func (g *gen) routes(depth, max int, sh shape) []*route {
 			r.group = 1 + g.rng.Intn(2)
 		}
 		r.terminal = g.rng.Chance(sh.termOdds, 100)
-		r.sets = g.sets(sh.errOdds, sh.noSetOdds)
+		r.sets = g.sets(sh.errOdds, sh.legacyOdds, sh.noSetOdds)
 		r.hs = g.handlers(depth, sh)
 		rs = append(rs, r)
 	}
@@ -160,8 +164,8 @@ func (g *gen) tree(tier string) (rs []*route, hasErrs bool, errs []*route) {
 	if tier != "quick" {
 		g.budget = 10 + g.rng.Intn(40)
 	}
-	sh := shape{errOdds: 4, failOdds: 12, subOdds: 18, subErrOdds: 30, termOdds: 18, groupOdds: 35, rewriteOdds: 18, noSetOdds: 40}
-	switch g.rng.Intn(7) {
+	sh := shape{errOdds: 4, failOdds: 12, subOdds: 18, subErrOdds: 30, termOdds: 18, groupOdds: 35, rewriteOdds: 18, noSetOdds: 40, legacyOdds: 5}
+	switch g.rng.Intn(8) {
 	case 0: // no failures at all: routing proper
 		sh.errOdds, sh.failOdds = 0, 0
 	case 1: // error-heavy
@@ -172,6 +176,8 @@ func (g *gen) tree(tier string) (rs []*route, hasErrs bool, errs []*route) {
 		sh.groupOdds, sh.termOdds = 70, 35
 	case 4: // rewrite, then fail: the error routes must see the original URI
 		sh.rewriteOdds, sh.failOdds, sh.noSetOdds = 35, 20, 60
+	case 5: // error matchers next to legacy (RequestMatcher-only) matchers
+		sh.errOdds, sh.legacyOdds, sh.noSetOdds = 12, 30, 15
 	}
 	rs = g.routes(0, 5, sh)
 	switch x := g.rng.Intn(100); {
@@ -278,10 +284,13 @@ func evaluate(c tcase) (got observed, tags []string, fails []core.Failure, err e
 		}
 	}()
 	rs, hasErrs, errs, q := c.rs, c.hasErrs, c.errs, c.q
-	got, err = serveReal(rs, hasErrs, errs, q)
+	// one server, three requests: the case's request, a different one, the case's request again
+	other := request{(q.method + 1) % 2, (q.host + 1) % 3, (q.path + 1 + int(fnv(c.line())%5)) % 6, (q.hdr + 1) % 3}
+	seq, err := serveSeq(rs, hasErrs, errs, []request{q, other, q})
 	if err != nil {
 		return
 	}
+	got = seq[2]
 
 	// ---- oracle 1: the documented routing rules, evaluated directly
 	want, tset := specEval(rs, hasErrs, errs, q)
@@ -302,6 +311,19 @@ func evaluate(c tcase) (got observed, tags []string, fails []core.Failure, err e
 		} else {
 			fails = append(fails, fail(class, what))
 		}
+	}
+
+	// ---- oracle 0: routing is a function of the configuration and the request — nothing is
+	// carried from one request to the next on the same server (per-request chain compilation,
+	// per-request group set)
+	if canon(seq[0]) != canon(seq[2]) {
+		fails = append(fails, fail("state-carried-between-requests",
+			fmt.Sprintf("the same request served twice by one server: first %s, then (after one other request) %s", canon(seq[0]), canon(seq[2]))))
+	}
+	if wantO, _ := specEval(rs, hasErrs, errs, other); treeOk(rs, errs) && canon(seq[1]) != canon(wantO.observed()) {
+		fails = append(fails, fail("rules:second-request",
+			fmt.Sprintf("request %d,%d,%d,%d served after the case's request on the same server: %s, the routing rules prescribe %s",
+				other.method, other.host, other.path, other.hdr, canon(seq[1]), canon(wantO.observed()))))
 	}
 
 	// the two-run relations cost a provisioning each: applied to a fixed third of the cases
